@@ -49,7 +49,8 @@ def check_case(case):
     tx = case["tx"]
     dists = [10.0, 135.5, 1000.0]
     pix = [(0.01, 0.01), (0.0936, 0.0962), (0.5, 0.3)]
-    offs = [(0.0, 0.0, 0.0), (2.0, -2.0, 1.0), (-1.5, 0.5, -2.0), (0, 0, 0), (2, -2, 1)]  # the last two: Python ints
+    offs = [(0.0, 0.0, 0.0), (2.0, -2.0, 1.0), (-1.5, 0.5, -2.0), (0, 0, 0), (2, -2, 1),  # the last two: Python ints
+            (0.0, 1.0, -0.5), (1.5, 0.0, 0.8), (0.0, 0.0, 2.0), (-0.0, 2.0, 0)]  # exact zeros mixed with non-zero coordinates, a signed zero
     centres = [(521.5, -31.25), (0.0, 1024.0)]
     for etad, ty, tz in itertools.product(etas, tilts, tilts):
         eta = math.radians(etad)
